@@ -136,6 +136,16 @@ def match_known(v, findings):
     return None
 
 
+def jsonable(x):
+    if isinstance(x, (str, int, float, bool)) or x is None:
+        return x
+    if isinstance(x, dict):
+        return {(k if isinstance(k, str) else repr(k)): jsonable(v) for k, v in x.items()}
+    if isinstance(x, (list, tuple)):
+        return [jsonable(v) for v in x]
+    return repr(x)
+
+
 def lit(x):
     """repr usable as a Python literal inside replay scripts"""
     return pprint.pformat(x, width=100)
@@ -152,7 +162,7 @@ def write_replay(v, n):
             'script': v.script,
             'how_to_replay': './check %s --replay %s' % (v.prop, path)}
     with open(path, 'w') as fh:
-        json.dump(data, fh, indent=1, default=repr)
+        json.dump(jsonable(data), fh, indent=1, default=repr)
     return path
 
 
@@ -265,7 +275,7 @@ def finish(ctx, level, checker_cmd, design_ref=''):
           'violations': len(unknown)}
     os.makedirs(EVIDENCE_DIR, exist_ok=True)
     with open(os.path.join(EVIDENCE_DIR, ctx.prop + '.json'), 'w') as fh:
-        json.dump(ev, fh, indent=1, default=repr)
+        json.dump(jsonable(ev), fh, indent=1, default=repr)
     print('%s tier=%s obligations=%d discharged=%d bounded_evaluations=%d '
           'distinct_nontrivial=%d violations=%d known=%d wall=%.1fs'
           % (ctx.prop, ctx.tier, len(obl), discharged, b['evaluations'],
